@@ -218,3 +218,71 @@ func tightLookup(fscod byte) int {
 	}
 	return rate
 }
+
+// L-APPENDALIAS: broken insertions (two forms) and the two correct idioms.
+func insertBroken1(xs []int, k, v int) []int {
+	rest := xs[k:]
+	xs = append(xs[:k], v)
+	xs = append(xs, rest...)
+	return xs
+}
+
+func insertBroken2(xs []int, k, v int) []int {
+	return append(append(xs[:k], v), xs[k:]...)
+}
+
+func insertRight(xs []int, k, v int) []int {
+	xs = append(xs[:k+1], xs[k:]...)
+	xs[k] = v
+	return xs
+}
+
+func deleteRight(xs []int, i int) []int {
+	return append(xs[:i], xs[i+1:]...)
+}
+
+// L-SHORTREAD: one direct Read for a whole range.
+func shortRead(rs io.ReadSeeker, n int) []byte {
+	buf := make([]byte, n)
+	k, _ := rs.Read(buf)
+	return buf[:k]
+}
+
+// L-LOOPALIAS: one read buffer reused for every kept sample.
+type keptSample struct {
+	Data []byte
+}
+
+func reuseBuffer(r io.Reader, sizes []int) []keptSample {
+	var out []keptSample
+	var buf []byte
+	for _, size := range sizes {
+		if cap(buf) < size {
+			buf = make([]byte, size)
+		}
+		data := buf[:size]
+		_, _ = io.ReadFull(r, data)
+		out = append(out, keptSample{Data: data})
+	}
+	return out
+}
+
+// G-NILMAP: the map is only made on one arm.
+func nilMapUpdate(split bool, keys []string) map[string]int {
+	var m map[string]int
+	if !split {
+		m = make(map[string]int)
+	}
+	for i, k := range keys {
+		m[k] = i
+	}
+	return m
+}
+
+// O-APPENDPARAM: pads the caller's 8-byte IV in place when it has spare capacity.
+func PadIV(iv []byte) []byte {
+	if len(iv) == 8 {
+		iv = append(iv, make([]byte, 8)...)
+	}
+	return iv
+}
